@@ -1,6 +1,7 @@
 import HexProofs.Framework.Schedule
 import HexProofs.Framework.Fill
 import HexProofs.Framework.Kinds.All
+import HexProofs.Framework.Gen.All
 import HexProofs.Lib.IntInst
 import HexProps.C03
 /-
@@ -119,6 +120,45 @@ theorem C01_partial_tf (tf : Int) (htf : 0 < tf) (fill : Bool) (k : Kind F) (nam
   | false => exact schedule_independent_leaf_tf tf htf _ (hk.isLeaf round) K init chunks hraw snap hlive
   | true => exact schedule_independent_leaf_fill tf htf _ (hk.isLeaf round) K init chunks hraw snap hlive
 
+/-! ### composite trees -/
+
+/-- **C01, partial: all covered TREES** (`CoveredTree`: every leaf class and the composite kinds
+whose refinement is proved – the data-series kinds VWAP, STDEV, RSI, ATR with its prior TR
+helper, KC with its ATR and EMA helpers), base timeframe.  If the
+live history returns, the batch run returns the same candles: OHLCV, stamps, the node's readings
+and its helper series. -/
+theorem C01_trees_base (k : Kind F) (name : String) (round : Nat) (hk : CoveredTree name k)
+    (init : List (Candle F)) (chunks : List (List (Candle F)))
+    (hp : RawInput (init ++ chunks.flatten)) (snap : List (Candle F))
+    (hlive : candlesOf (runIndicator (mkTop k name round) {} init chunks) = .ok snap) :
+    candlesOf (runBatch (mkTop k name round) {} (init ++ chunks.flatten)) = .ok snap := by
+  obtain ⟨T, _⟩ := hk.spec round
+  exact T.live_eq_batch (MgrSpec.base F) init chunks hp snap hlive
+
+/-- **C01, partial: all covered trees, any timeframe, gap filling off or on.** -/
+theorem C01_trees (tf : Option Int) (htf : ∀ t, tf = some t → 0 < t) (fill : Bool) (k : Kind F)
+    (name : String) (round : Nat) (hk : CoveredTree name k)
+    (init : List (Candle F)) (chunks : List (List (Candle F)))
+    (hraw : RawTf (init ++ chunks.flatten)) (snap : List (Candle F))
+    (hlive : candlesOf (runIndicator (mkTop k name round) { tf := tf, fill := fill && tf.isSome } init chunks)
+      = .ok snap) :
+    candlesOf (runBatch (mkTop k name round) { tf := tf, fill := fill && tf.isSome } (init ++ chunks.flatten))
+      = .ok snap := by
+  obtain ⟨T, _⟩ := hk.spec round
+  have hcfg := mgrSpecOf_cfg (F := F) tf htf fill
+  unfold runBatch
+  rw [← hcfg] at hlive ⊢
+  exact T.live_eq_batch (mgrSpecOf F tf htf fill) init chunks (mgrSpecOf_ok tf htf fill _ hraw) snap hlive
+
+/-- the batch run returns iff the row-major spec does (trees compute their helper series
+column-major, so when a reading raises the two may raise different exceptions) -/
+theorem batch_iff_rowMajor_trees (k : Kind F) (name : String) (round : Nat) (hk : CoveredTree name k)
+    (stream : List (Candle F)) (hp : RawInput stream) :
+    ∃ T : TreeSpec (mkTop k name round), ∀ out,
+      candlesOf (runBatch (mkTop k name round) {} stream) = .ok out ↔ Gen.rowMajor T.S stream = .ok out := by
+  obtain ⟨T, _⟩ := hk.spec round
+  exact ⟨T, fun out => T.batch_iff (MgrSpec.base F) stream hp out⟩
+
 /-! ### the full statement -/
 
 /-- period parameters of a kind -/
@@ -142,9 +182,9 @@ structure WellFormed (xs : List (Candle F)) : Prop where
 `mkTop`), every parameter choice with positive periods, base or collapsing timeframe, with or
 without gap filling, every construction prefix and append schedule.
 NOT proved yet.  Missing: (i) inputs that are other indicators' readings (here: candle
-attributes only, the stream being raw); (ii) the framework refinement for trees with
-sub-indicators / managed helpers (`calcSubs`, `setManagedReading`), where ADX is known to violate the statement (see
-known_findings).  (Timeframes and gap filling are done: `schedule_independent_leaf_tf`,
+attributes only, the stream being raw); (ii) the framework refinement for the composite kinds
+not in `CoveredTree` (see `C01_trees` for those that are), where ADX is known to violate the
+statement (see known_findings).  (Timeframes and gap filling are done: `schedule_independent_leaf_tf`,
 `schedule_independent_leaf_fill`.)
 Note that with a timeframe the statement can only hold for histories that run: a reading on the
 still-forming bucket may raise where the batch run does not; so the full statement is about
@@ -187,6 +227,36 @@ example : Covered (F := Int) "VWMA_4" (.vwma 4) := .vwma 4 (by decide) (by decid
 example : Covered (F := Int) "ROC" (.roc 1 "high") := .roc 1 "high" (by decide) (by decide) (by decide)
 example : Covered (F := Int) "rising_3" (.amorph (.rising "close" 3)) := .amorph _ (by decide)
 example : Covered (F := Int) "hammer" (.amorph (.hammer none)) := .amorph _ (by decide)
+
+/-- composite trees: the hypotheses of `C01_trees` are met and the runs return -/
+example : CoveredTree (F := Int) "VWAP_3" (.vwap 3) := .vwap 3
+example : CoveredTree (F := Int) "STDEV_2" (.stdev 2 "close") := .stdev 2 "close" (by decide) (by decide)
+example : RsiNames "RSI_2" := ⟨by decide, by decide, by decide, by decide⟩
+example : CoveredTree (F := Int) "RSI_2" (.rsi 2 "close") :=
+  .rsi 2 "close" (by decide) ⟨by decide, by decide, by decide, by decide⟩ (by decide)
+example : CoveredTree (F := Int) "ATR_2" (.atr 2) := .atr 2 (by decide) ⟨by decide, by decide⟩
+/-- ATR over the demo: its TR helper is computed column-major before the node's own loop; live and
+batch return, every candle holds the helper's key, the node's own reading starts at index 2 -/
+example : (match candlesOf (runIndicator (mkTop (.atr 2) "ATR_2" 4) {} [] [demo.take 1, demo.drop 1]) with
+    | .ok cs => cs.map (fun c => ((dlookup "ATR_2" c.inds).map (fun v => !v.isNone), (dlookup "ATR_2_TR" c.subs).isSome))
+    | .error _ => []) = [(some false, true), (some false, true), (some true, true), (some true, true)] := by
+  decide +kernel
+/-- Keltner Channel: helpers ATR (with its own TR helper) and EMA – a depth-3 tree, five keys per
+candle; live and batch return and every candle holds all of them -/
+example : KcNames "KC_2" := ⟨by decide, by decide, by decide, by decide, by decide, by decide, by decide,
+  by decide, by decide⟩
+example : CoveredTree (F := Int) "KC_2" (.kc 2 "close" (.int 2)) :=
+  .kc 2 "close" _ (by decide) ⟨by decide, by decide, by decide, by decide, by decide, by decide, by decide,
+    by decide, by decide⟩ (by decide)
+example : (match candlesOf (runIndicator (mkTop (.kc 2 "close" (.int 2)) "KC_2" 4) {} [] [demo.take 1, demo.drop 1]) with
+    | .ok cs => cs.map (fun c => ((dlookup "KC_2" c.inds).isSome, (c.subs.map (·.1))))
+    | .error _ => []) = [(true, ["KC_2_ATR_TR", "KC_2_ATR", "KC_2_EMA"]), (true, ["KC_2_ATR_TR", "KC_2_ATR", "KC_2_EMA"]),
+      (true, ["KC_2_ATR_TR", "KC_2_ATR", "KC_2_EMA"]), (true, ["KC_2_ATR_TR", "KC_2_ATR", "KC_2_EMA"])] := by
+  decide +kernel
+/-- VWAP over the demo, live = batch, with its `VWAP_3_data` helper series written on every candle -/
+example : (match candlesOf (runIndicator (mkTop (.vwap 3) "VWAP_3" 4) {} [] [demo.take 1, demo.drop 1]) with
+    | .ok cs => cs.map (fun c => ((dlookup "VWAP_3" c.inds).isSome, (dlookup "VWAP_3_data" c.subs).isSome))
+    | .error _ => []) = [(true, true), (true, true), (true, true), (true, true)] := by decide +kernel
 /-- the SMA column of a run (`none` if the run raised) -/
 def smaColumn (r : PyM (List (Candle Int))) : Option (List (Option Int)) :=
   match r with
